@@ -666,6 +666,8 @@ class Ex:
         fr.locals[idx_name] = vint(0)
         if seq_name:
             fr.locals[seq_name] = itv
+        if ls.get("seq_base"):          # the sequence a `reversed(...)` iterates over, un-reversed
+            fr.locals[ls["seq_base"]] = itv.meta.get("rev_of", itv) if itv.meta else itv
         if s.orelse:
             raise Unsupported("for/else")
 
